@@ -92,6 +92,10 @@ const TARGETS: &[Target] = &[
     Target { name: "trim_regex", file: "src/cut_str.rs", impl_trait: None, impl_self: None,
              func: "trim_regex", calls: &[], deps: &[],
              imports: "Model.Scan Model.Regex Model.Opt Model.CutStr Tie.RsStr Tie.RsRegex", ret_muts: false, fuel: "" },
+    Target { name: "read_and_cut_lines", file: "src/cut_lines.rs", impl_trait: None, impl_self: None,
+             func: "read_and_cut_lines", calls: &[("is_forward_only", "gen_ubl_is_forward_only"), ("cut_lines_forward_only", "model_lines_forward"), ("cut_lines", "model_lines_buffered")],
+             deps: &["ubl_is_forward_only"],
+             imports: "Model.Scan Model.Regex Model.Opt Model.CutStr Model.CutLines Tie.RsList Tie.RsLines", ret_muts: false, fuel: "" },
     Target { name: "maybe_replace", file: "src/cut_str.rs", impl_trait: None, impl_self: None,
              func: "maybe_replace_delimiter", calls: &[("replace_all", "rx_replace_all")], deps: &[],
              imports: "Model.Scan Model.Regex Model.Opt Model.CutStr Tie.RsRegex", ret_muts: false, fuel: "" },
@@ -536,20 +540,27 @@ impl Cx {
                     for a in &elems { match self.pure(a)? { Some(x) => xs.push(x), None => return Ok(None) } }
                     format!("[{}]", xs.join("; "))
                 } else if name == "matches" {
-                    let (e, pt) = m.mac.parse_body_with(|input: parse::ParseStream| {
+                    let (e, pt, guard) = m.mac.parse_body_with(|input: parse::ParseStream| {
                         let e: Expr = input.parse()?;
                         input.parse::<Token![,]>()?;
                         let p = Pat::parse_multi_with_leading_vert(input)?;
-                        if !input.is_empty() { return Err(input.error("matches! with a guard")); }
-                        Ok((e, p))
+                        let g: Option<Expr> = if input.peek(Token![if]) { input.parse::<Token![if]>()?; Some(input.parse()?) } else { None };
+                        if input.peek(Token![,]) { input.parse::<Token![,]>()?; }
+                        if !input.is_empty() { return Err(input.error("matches! with something after its pattern")); }
+                        Ok((e, p, g))
                     }).map_err(|e| format!("matches!: {}", e))?;
                     let ev = match self.pure(&e)? { Some(v) => v, None => return Err("matches! on an effectful expression".into()) };
                     let mark = self.env.len();
                     self.tuple_hint = vec![];
                     let hint = self.ty(&e);
                     let (ps, irr) = self.pat(&pt, hint)?;
+                    let gs = match &guard { Some(g) => Some(self.pure(g)?.ok_or("matches! with a guard that is not a plain expression")?), None => None };
                     self.env.truncate(mark);
-                    if irr { "true".to_string() } else { format!("(match {} with {} => true | _ => false end)", ev, ps) }
+                    match gs {
+                        Some(g) if irr => format!("(let {} := {} in {})", ps, ev, g),
+                        Some(g) => format!("(match {} with {} => {} | _ => false end)", ev, ps, g),
+                        None => if irr { "true".to_string() } else { format!("(match {} with {} => true | _ => false end)", ev, ps) },
+                    }
                 } else { return Ok(None); }
             }
             Expr::If(_) | Expr::Match(_) | Expr::Block(_) | Expr::Return(_) | Expr::Try(_) | Expr::Assign(_) | Expr::ForLoop(_) | Expr::Closure(_) | Expr::Index(_) | Expr::Break(_) | Expr::While(_) => return Ok(None),
@@ -1323,6 +1334,14 @@ fn translate(t: &Target, sig: &Signature, block: &Block, ret_tys: &HashMap<Strin
                     Type::Path(p) if path_str(&p.path) == "Self" => (self_coq.0.to_string(), self_coq.1.clone()),
                     other => ty_of_type(other),
                 };
+                let reader = matches!(&*pt.ty, Type::Reference(r) if r.mutability.is_some() && matches!(&*r.elem, Type::Path(p) if sig.generics.params.iter().any(|g| matches!(g, GenericParam::Type(tp) if p.path.is_ident(&tp.ident)
+                    && tp.bounds.iter().any(|b| matches!(b, TypeParamBound::Trait(tb) if tb.path.segments.last().map_or(false, |s| s.ident == "BufRead" || s.ident == "Read")))))));
+                if reader {
+                    // stdin: &mut R (R: BufRead): the input that is left to read
+                    cx.env.push((name.clone(), Ty::Bytes));
+                    write!(params, " ({} : bytes)", ident(&name)).unwrap();
+                    continue;
+                }
                 if matches!(&*pt.ty, Type::Reference(r) if r.mutability.is_some() && matches!(&*r.elem, Type::Path(p) if sig.generics.params.iter().any(|g| matches!(g, GenericParam::Type(tp) if p.path.is_ident(&tp.ident))))) {
                     // stdout: &mut W
                     cx.writers.push(name.clone());
